@@ -153,6 +153,30 @@ def _policy_fn(kind, k, newest_at_set):
     raise ValueError(kind)
 
 
+def _poke(obj, rd, rds):
+    """Try the obvious in-place mutations on an object returned by a call of the sweep."""
+    import dns.rdataset
+    import dns.node
+
+    attempts = []
+    if isinstance(obj, dns.rdataset.Rdataset):
+        attempts = [lambda: obj.clear(), lambda: obj.add(rd), lambda: obj.update_ttl(0), lambda: obj.items.clear()]
+    elif isinstance(obj, dns.node.Node):
+        attempts = [lambda: obj.replace_rdataset(rds), lambda: obj.rdatasets.clear(), lambda: obj.rdatasets.append(rds)]
+    elif isinstance(obj, dict):
+        attempts = [lambda: obj.clear()]
+    elif isinstance(obj, list):
+        attempts = [lambda: obj.clear()]
+    elif isinstance(obj, set):
+        attempts = [lambda: obj.clear()]
+    for a in attempts:
+        try:
+            a()
+        except BaseException as e:  # noqa: BLE001
+            if isinstance(e, (KeyboardInterrupt, SystemExit)):
+                raise
+
+
 class _World:
     def __init__(self, case, res, log):
         self.case = case
@@ -531,8 +555,12 @@ class _World:
                     try:
                         r = fn(*args)
                         if hasattr(r, "__next__"):
-                            for _ in r:
-                                pass
+                            r = list(r)
+                        # whatever a call hands out must not be a mutable alias of snapshot state:
+                        # poke the returned object(s) and let the fingerprint decide
+                        for obj2 in (r if isinstance(r, (list, tuple)) else [r]):
+                            for sub in (obj2 if isinstance(obj2, tuple) else [obj2]):
+                                _poke(sub, new_rd, new_rds_txt)
                     except BaseException as e:  # noqa: BLE001
                         if isinstance(e, (KeyboardInterrupt, SystemExit)):
                             raise
